@@ -223,8 +223,19 @@ fn body() -> Check {
       };
       items.push(it);
     }
+    // sometimes a long run of changes that produce no sample (disposes of instances never seen), while the
+    // application is busy elsewhere: whatever follows them must still come out
+    if with_key && ch(|c| c.chance(1, 6)) {
+      let at = ch(|c| c.index(items.len() + 1));
+      let len = 12 + ch(|c| c.draw(40)) as usize;
+      for _ in 0..len {
+        items.insert(at, Item::DisposeHashUnknown);
+      }
+      e2::count("op.long_run_of_sampleless_changes");
+    }
     streams.push(items);
   }
+  let busy_application = ch(|c| c.chance(1, 2));
   let any_bad = streams.iter().flatten().any(|i| !matches!(i, Item::Good { .. } | Item::DisposeKey { .. } | Item::DisposeHashKnown { .. }));
   e2::log(&format!("streams {streams:?}"));
 
@@ -318,7 +329,7 @@ fn body() -> Check {
     }
     send_as(&g, subs, false, 100_000);
     e2::run_for(2 * MS)?;
-    if ch(|c| c.chance(1, 3)) {
+    if !(busy_application && streams[wi].len() > 12) && ch(|c| c.chance(1, 3)) {
       drain(&form, &mut rd, &mut stream_holder, &mut got, &mut calls, 1 + ch(|c| c.draw(3)), 2, &woken)?;
     }
   }
